@@ -261,6 +261,7 @@ func cmdCheck(id, tier string) int {
 	spurious := 0
 	knownPrinted := map[string]bool{}
 	violPrinted := map[string]bool{}
+	spuriousTried := map[string]int{}
 	os.MkdirAll(filepath.Join(outDir(), "replays"), 0o755)
 	for _, res := range results {
 		for i, v := range res.Violations {
@@ -282,7 +283,7 @@ func cmdCheck(id, tier string) int {
 				continue
 			}
 			key := res.Cfg.Name + "/" + v.AssertID
-			if violPrinted[key] {
+			if violPrinted[key] || spuriousTried[key] >= 4 {
 				continue
 			}
 			violPrinted[key] = true
@@ -316,6 +317,10 @@ func cmdCheck(id, tier string) int {
 				} else {
 					status = "NOT reproduced natively (spurious)"
 					spurious++
+					// another counterexample for the same assertion may reproduce (the paths are explored in no
+					// fixed order): up to four are tried before the assertion is given up as inconclusive
+					violPrinted[key] = false
+					spuriousTried[key]++
 					inconclusive = append(inconclusive, fmt.Sprintf("%s: counterexample for %s did not reproduce natively:\n%s", res.Cfg.Name, v.AssertID, tail(out, 15)))
 					continue
 				}
